@@ -73,3 +73,14 @@ Definition show_qty_sval (v : sval) : string :=
       " keys=" ++ show_nat (List.length l)
   | _ => "?"
   end.
+
+(** entry points for the correspondence (types syntactically aligned, so that
+    evaluating a case does not spend its time in conversion checks) *)
+Definition ser_entry (am : Amount) (enc : am -> sval) (g : gen_def SIPrefix) (a : am) (u : nat) : sval :=
+  ser_qty am enc g (q_new (base_of_gen am g) a u).
+Definition rt_entry (am : Amount) (enc : am -> sval) (dcd : sval -> option am) (sa : am -> string)
+    (g : gen_def SIPrefix) (a : am) (u : nat) : string :=
+  match de_qty am dcd g (ser_entry am enc g a u) with
+  | Some q => sa (q_amount (base_of_gen am g) q) ++ " " ++ show_nat (q_unit (base_of_gen am g) q)
+  | None => "DE-ERROR"
+  end.
